@@ -18,7 +18,7 @@ LEVEL = "model_checking"
 
 def run(ctx):
     ctx.build(["c17"])
-    paths, rs = xcommon.explore(ctx, "c17", "X_C17", 140, 3500, per_file=28)
+    paths, rs = xcommon.explore(ctx, "c17", "X_C17", 280, 3500, per_file=28)
     # prologue/epilogue templates assembled by llvm-mc (corpus/c17) and lifted by the real translators
     lifted = ctx.record("c17", ["--mode", "lifted", "--corpus", core.ROOT + "/corpus/c17"], "lifted.json")
     r = ctx.tlc_explore("X_C17", lifted)
